@@ -667,4 +667,50 @@ example : progKeys Coba.Generated.C06.flagDefs Coba.Generated.C06.rowProgram
       discrete := true, rwdsIsList := true } true false true
     = ["predict_time", "learn_time", "action", "reward", "probability"] := by decide
 
+/-! ## Phase 6: a consumer that stops early, then goes on with the same learner
+
+`evaluate` is a generator; `evaluateStopped … j` is what has happened when the consumer closes it after the rows of `j` loop
+passes (`Model/C06.lean`).  No hypotheses on the environment or the learner. -/
+
+/-- **strict environment order, as seen by a consumer that stops.**  Whenever the full evaluation goes through, the evaluation
+stopped after `j` passes (any `j`, batched or not) goes through as well; what the learner has been fed by then is a PREFIX of
+the full call trace and the rows handed out are a PREFIX of the full rows — nothing of a later interaction is fed or recorded
+early — and resuming from exactly that point (`resumeStopped`) gives the full evaluation. -/
+theorem stopped_evaluation_is_prefix (c : Config) (L : Learner σ V) (bs : Option Nat) (env : List (Dict (Fld V R))) (s s' : σ)
+    (j : Nat) (calls : List (Call V)) (rows : List (Row V R)) (h : evaluate c L bs env s = .ok (s', calls, rows)) :
+    ∃ r : σ × List (Call V) × List (Row V R), evaluateStopped c L bs env s j = .ok r ∧ r.2.1 <+: calls ∧ r.2.2 <+: rows ∧
+      resumeStopped c L bs env j r = .ok (s', calls, rows) :=
+  stopped_prefix' c L bs env s s' j calls rows h
+
+/-- un-batched: stopping after `j ≥ 1` rows' passes IS the evaluation of the first `j` interactions (outcome, learner state,
+calls, rows; error outcomes included) — so every theorem above speaks about abandoned evaluations too -/
+theorem stopped_unbatched_is_evaluation_of_prefix (c : Config) (L : Learner σ V) (env : List (Dict (Fld V R))) (s : σ) (j : Nat)
+    (hj : 0 < j) : evaluateStopped c L none env s j = evaluate c L none (env.take j) s :=
+  stopped_unbatched_take' c L env s j hj
+
+/-- `Batch(n)`, `n ≥ 1`: stopping after `j ≥ 1` batches IS the batched evaluation of the first `j·n` interactions -/
+theorem stopped_batched_is_evaluation_of_prefix (c : Config) (L : Learner σ V) (n : Nat) (hn : 0 < n)
+    (env : List (Dict (Fld V R))) (s : σ) (j : Nat) (hj : 0 < j) :
+    evaluateStopped c L (some n) env s j = evaluate c L (some n) (env.take (j * n)) s :=
+  stopped_batched_take' c L n hn env s j hj
+
+/-- asking for at least as many passes as there are interactions is the full evaluation -/
+theorem stopped_after_everything (c : Config) (L : Learner σ V) (bs : Option Nat) (env : List (Dict (Fld V R))) (s : σ) (j : Nat)
+    (hj : env.length ≤ j) : evaluateStopped c L bs env s j = evaluate c L bs env s :=
+  stopped_all' c L bs env s j hj
+
+/-- **histories with abandoned evaluations** (read / abandon / read again with the same learner object): every outcome of
+the history — also of the evaluations AFTER an abandoned one — is the outcome of the history in which each abandoned
+evaluation is replaced by the full evaluation of the interactions it got through (`EpisodeS.seen`).  With
+`evaluations_independent`: the next evaluation starts from the learner state those interactions left, nothing else. -/
+theorem abandoned_then_continued (L : Learner σ V) (es : List (EpisodeS V R)) (s : σ) (h : ∀ e ∈ es, e.okStop) :
+    runHistoryS L s es = runHistory L s (es.map EpisodeS.seen) :=
+  abandoned_history' L es s h
+
+/-- the hypothesis is forced: with `j = 0` (generator created, never started) a stopped evaluation of an environment lacking a
+required key is still `.rejected` in the model's reading while the evaluation of the empty prefix is `.ok` — the harness
+never generates `j = 0`. `okStop` is met by any history whose abandoned evaluations took a row. -/
+example : (⟨⟨{ learn := .on, eval := .on, record := [] }, some 2, ([] : List (Dict (Fld Nat Nat)))⟩, some 1⟩ : EpisodeS Nat Nat).okStop :=
+  ⟨fun j h => by cases h; decide, fun n h => by cases h; decide⟩
+
 end Coba.C06
